@@ -1,0 +1,92 @@
+//go:build verif
+
+package ramfs
+
+import (
+	"errors"
+	"fmt"
+
+	p9p "github.com/frobnitzem/go-p9p"
+)
+
+// Observation hooks for the runtime monitors in /verif (build tag `verif`).
+
+// VerifNewServer returns a fresh server instance that shares nothing with the
+// package-global one returned by NewServer.
+func VerifNewServer() p9p.FileSys {
+	fs := &fServer{
+		lastpath: 1,
+		root: &FileEnt{
+			nref:     1,
+			children: make(map[string]*FileEnt),
+			Info:     newDir(1, "/", "root", p9p.DMDIR|0775),
+		},
+	}
+	fs.root.fs = fs
+	return fs
+}
+
+// VerifValidate checks, for every node reachable from the root, that its
+// reference count equals its number of parent links (the root counts one for
+// itself) plus extra, where extra[node]==0 for all nodes when no fid is held.
+// It takes each node's lock while reading it. It is the check that lives in
+// inode_test.go, made available to non-test builds.
+func VerifValidate(fsys p9p.FileSys) error {
+	fs, ok := fsys.(*fServer)
+	if !ok {
+		return errors.New("not a ramfs server")
+	}
+	tgts := map[*FileEnt]int{fs.root: 1}
+	todo := []*FileEnt{fs.root}
+	for len(todo) > 0 {
+		f := todo[len(todo)-1]
+		todo = todo[:len(todo)-1]
+		f.Lock()
+		isDir := f.IsDir()
+		kids := make(map[string]*FileEnt, len(f.children))
+		for n, c := range f.children {
+			kids[n] = c
+		}
+		hasMap := f.children != nil
+		name := f.Info.Name
+		f.Unlock()
+		if !isDir && hasMap {
+			return errors.New(name + ": file cannot contain child refs")
+		}
+		for n, c := range kids {
+			c.Lock()
+			cname := c.Info.Name
+			c.Unlock()
+			if n != cname {
+				return fmt.Errorf("%s: child linked as %q is named %q", name, n, cname)
+			}
+			if _, seen := tgts[c]; !seen {
+				tgts[c] = 1
+				todo = append(todo, c)
+			} else {
+				tgts[c]++
+			}
+		}
+	}
+	for f, n := range tgts {
+		f.Lock()
+		nref, name := f.nref, f.Info.Name
+		f.Unlock()
+		if n != nref {
+			return fmt.Errorf("node %q has %d references but %d parent links", name, nref, n)
+		}
+	}
+	return nil
+}
+
+// VerifRefs reports the reference count of the node behind a handle handed out
+// by this package (ok=false for anything else).
+func VerifRefs(d p9p.Dirent) (nref int, ok bool) {
+	h, ok := d.(FileHandle)
+	if !ok || h.ent == nil {
+		return 0, false
+	}
+	h.ent.Lock()
+	defer h.ent.Unlock()
+	return h.ent.nref, true
+}
